@@ -12,7 +12,7 @@ PROPS = {"C18": dict(
         "Zrnt.Proofs.C18.no_fault_same_result_total",
         "Zrnt.Proofs.C18.cancel_from_any_poll_is_error",
     ],
-    modes=[dict(name="c18", nontrivial=lambda op, g: g in ("err", "same", "ok"))],
+    modes=[dict(name="c18", nontrivial=lambda op, g: g in ("err", "same", "ok"), tie_lines=[r"^genfail\b"])],
     regen=["extract:faultsites"],
     components=["faults", "chain"],
     level="proof",
